@@ -27,7 +27,7 @@ def gen_ir(rng, stable):
         elif k < 0.75:
             t = "Optional[%s]" % base
         else:
-            t = "Literal[%s]" % ", ".join("'%s'" % m for m in sorted(rng.sample(["a", "b", "np", "tf", "1", "2", "3"], rng.randint(2, 3))))
+            t = "Literal[%s]" % ", ".join("'%s'" % m for m in rng.sample(["a", "b", "np", "tf", "1", "2", "3"], rng.randint(2, 3)))
         p = {"typ": t, "doc": rng.choice(T.PLAIN_DOCS)}
         if i >= n - kdef:
             inner = t[9:-1] if t.startswith("Optional[") else t
